@@ -182,7 +182,9 @@ MODULE_BASE = {
     "find": {"paths": '"ROOT"'}, "command": {"cmd": '"true"'}, "debug": {"msg": '"x"'}, "assert": {"that": '["true"]'},
     "pacman": {"executable": '"/bin/true"', "name": '"x"'},
 }
-SPECIAL_SCRIPTS = ["", "\n", "#!/usr/bin/env rash\n", "# only a comment\n# Usage: prog\n", "#!/usr/bin/env rash\r\n#\r\n# Usage: prog [<x>]\r\n#\r\n- debug:\r\n    msg: x\r\n",
+SPECIAL_SCRIPTS = ["- debug:\n    msg: level\n- include: \"{{ rash.path }}\"\n", "- include: \"{{ rash.path }}\"\n  ignore_errors: true\n- debug:\n    msg: after\n",
+                   "- include: \"{{ rash.path }}\"\n  loop: [1, 2]\n", "- include: ROOT/s.rh\n  when: true\n  become: true\n  become_user: nobody\n",
+                   "", "\n", "#!/usr/bin/env rash\n", "# only a comment\n# Usage: prog\n", "#!/usr/bin/env rash\r\n#\r\n# Usage: prog [<x>]\r\n#\r\n- debug:\r\n    msg: x\r\n",
                    "[]\n", "---\n", "--- []\n...\n", "- debug:\n    msg: x\n" * 2 + "\n\n\n", "\ufeff- debug:\n    msg: bom\n", "#\n#\n#\n", "#!\n# Usage:\n#\n- debug:\n    msg: x\n",
                    "# Usage: prog\n# Options:\n#\n- debug:\n    msg: x\n", "#!/usr/bin/env rash\n#\n# Usage: prog [options]\n#\n# Options:\n#   -x\n#\n- debug:\n    msg: x\n",
                    "#!/usr/bin/env rash\n#\n# Usage: prog [options] [options]\n#\n# Options:\n#   -x  x\n#\n- debug:\n    msg: x\n"]
@@ -305,6 +307,13 @@ def c13(run, replay=None):
             doc = "#!/usr/bin/env rash\n#\n# Usage: prog %s%s\n#\n- debug:\n    msg: x\n" % (pre, w)
             for argv in ([], ["x"], ["c", "x"], ["x", "y"]):
                 docs.append((doc, argv))
+    # usage lines WITHOUT a program name, with and without an options section (K29)
+    for w in ["", "[options]", "<x>", "[<x>]", "a", "[a]", "(a|b)", "<x>...", "[options] <x>", "-f", "[-f]", "--", "[--]"] + words[:200]:
+        for optsec in ("", "# Options:\n#   -f  f\n#   -o FILE  o\n#\n"):
+            for head in ("# Usage: %s\n", "# Usage:\n#   %s\n", "# Usage:%s\n", "# usage: %s\n"):
+                doc = "#!/usr/bin/env rash\n#\n" + (head % w) + "#\n" + optsec + "- debug:\n    msg: x\n"
+                for argv in ([], ["-f"], ["x"]):
+                    docs.append((doc, argv))
     heavy = [i for i, (doc, argv) in enumerate(docs) if k16_class(doc)]
     light = [i for i in range(len(docs)) if i not in set(heavy)]
     douts = [None] * len(docs)
